@@ -260,7 +260,7 @@ fn deviation_decided() -> impl Strategy<Value = Deviation> {
         4 => (pos(), by()).prop_map(|(pos, by)| NotYetValid { pos, by }),
         2 => Just(LeafCaFlag),
         2 => Just(LeafNoDigitalSignature),
-        3 => prop::sample::select(vec![EkuDrop::ServerAuth, EkuDrop::ClientAuth, EkuDrop::Both, EkuDrop::Absent])
+        3 => prop::sample::select(vec![EkuDrop::ServerAuth, EkuDrop::ClientAuth, EkuDrop::Both, EkuDrop::Absent, EkuDrop::ServerAuthTwice, EkuDrop::ClientAuthTwice, EkuDrop::ServerAuthReplaced, EkuDrop::ClientAuthReplaced])
             .prop_map(|drop| LeafEku { drop }),
         1 => Just(LeafNoKeyUsage),
         2 => pos().prop_map(|pos| AuthorityNotCa { pos }),
